@@ -49,7 +49,12 @@ InvCases   == { [kind |-> "inverse", o |-> o, oi |-> Inv(o), trees |-> <<TreeA>>
 OrgCases   == { [kind |-> "apply", o |-> [op |-> "translate_origin", centre |-> "origin"], trees |-> ts,
                  exp |-> [j \in 1 .. Len(ts) |-> Img([op |-> "translate_origin", centre |-> "origin"], ts[j])]] : ts \in TreeSets }
 MatCases   == { [kind |-> "matrix", o |-> o, trees |-> <<>>, exp |-> <<>>, m |-> Mat(o)] : o \in { x \in Ops \cup OpsX : x.centre = "origin" /\ x.op # "affine" } }
-AllSeq == SetToSeq(ApplyCases \cup InvCases \cup OrgCases \cup MatCases)
+\* two steps in a row (as Transforms(first, second) and as second(first(x))): a step that moves the root, then a step about the root - which is where the first left it
+Firsts  == { o \in Ops : o.centre = "root" /\ o.op \in {"translate", "affine"} }
+Seconds == { o \in Ops : o.centre = "root" /\ (o.op = "scale" \/ (o.op = "rotz" /\ o.a \in { <<Q(3, 5), Q(4, 5)>>, <<Zero, One>> })) }
+Img2(o1, o2, tr) == LET c == PtI(tr[1])  c2 == Apply(Eff(o1, c), c) IN [k \in 1 .. Len(tr) |-> Apply(Eff(o2, c2), Apply(Eff(o1, c), PtI(tr[k])))]
+PipeCases == { [kind |-> "pipe", o |-> o1, oi |-> o2, trees |-> <<TreeA>>, exp |-> << Img2(o1, o2, TreeA) >>] : o1 \in Firsts, o2 \in Seconds }
+AllSeq == SetToSeq(ApplyCases \cup InvCases \cup OrgCases \cup MatCases \cup PipeCases)
 Numbered == [j \in 1 .. Len(AllSeq) |-> [cid |-> j, wind |-> (j % 3) - 1] @@ AllSeq[j]]
 VARIABLE done
 Init == done = ndJsonSerialize(IOEnv.OUT, Numbered)
